@@ -23,7 +23,7 @@
    observed by the harness (both inputs before/after each call, and the model
    is compared against the inputs as they are AFTER the call). *)
 From Coq Require Import List ZArith Bool Arith Permutation.
-From NT Require Import Sx Rose Diff DiffProofs DiffMore DiffSrc CaseC11.
+From NT Require Import Sx Rose Diff DiffProofs DiffMore DiffSrc DiffIds CaseC11.
 From NTGen Require Import Generated.
 Import ListNotations.
 
@@ -251,3 +251,9 @@ Theorem C11_moved_pairs_same_data : forall order ordered t0 t1, hash_inj (pre_f 
      exists x, In x (pre_f f) /\ has_dc x MOVED_HERE = true /\ key x = key y).
 Proof. exact moved_pairs_same_data. Qed.
 Print Assumptions C11_moved_pairs_same_data.
+
+(* ---- every source node is copied at most once -------------------------------- *)
+Theorem C11_result_identities_distinct : forall order ordered t0 t1, dom t0 t1 -> NoDup (ids t0) -> NoDup (ids t1) ->
+  NoDup (ids (snd (diff_with order ordered false t0 t1))).
+Proof. exact result_ids_nodup. Qed.
+Print Assumptions C11_result_identities_distinct.
